@@ -69,6 +69,9 @@ func parseSeeds(path string) ([]*Seed, error) {
 			cur.Property = strings.TrimSpace(strings.TrimPrefix(line, "property:"))
 		case mode == "" && strings.HasPrefix(line, "expect:"):
 			cur.Expect = strings.Fields(strings.TrimPrefix(line, "expect:"))
+		case mode == "" && strings.HasPrefix(line, "patch:"):
+			// a stored diff (relative to /verif) applied before the edits: near-miss twins of stored changes
+			cur.Patch = filepath.Join(filepath.Dir(filepath.Dir(path)), strings.TrimSpace(strings.TrimPrefix(line, "patch:")))
 		case mode == "" && strings.HasPrefix(line, "note:"):
 			cur.Note = strings.TrimSpace(strings.TrimPrefix(line, "note:"))
 		case strings.HasPrefix(line, "file:") && (mode == "" || mode == "new"):
